@@ -259,6 +259,73 @@ def check_pair(t, cols, names, s1, s2, config, out):
     return exp["s"] if what is None else "BAD"
 
 
+# names that differ only by case, and a name that as a regular expression also matches another one: selectors WITHOUT a
+# count are plain case-insensitive full-match regular expressions on such tables too (count forms are left out here: for them
+# the library deliberately tries the literal name first, see the assumptions)
+NAMES2 = ("a", "A", "b", "a.c", "abc")
+SELS2 = ["a", "A", "b", "B", "a.c", "abc", "A.C", "[ab]", "a|b", ".*", "a.*", "a>>1", "A<<1", "a.c>>1"]
+
+
+def job_chunk2(chunk):
+    out = {"evaluations": 0, "undefined": 0, "nonempty": 0, "issues": [], "tables": 0, "pairs": 0, "singles": 0}
+    h = hashlib.sha256()
+    for names in chunk:
+        cols = columns(names)
+        out["tables"] += 1
+        for sel in SELS2:
+            t = mk_table(names)
+            r = check_single(t, cols, names, sel, _CFG, out)
+            out["singles"] += 1
+            h.update(repr((names, sel, r)).encode())
+    out["digest_sum"] = int(h.hexdigest(), 16)
+    out["distinct"] = set()
+    return out
+
+
+TRIPLE_CORE = [None, 1, [1, 0], slice(1, None), slice(None, None, 2), slice(None, None, -1), "a|b", ".*::0", "b>>1",
+               slice("a", "b"), slice(1.0, None, "s"), slice(None, 2.0, "u")]
+
+
+def job_triples(chunk):
+    """rows[s1, s2, s3] == rows[s1].rows[s2].rows[s3] (the class documentation states the law for any number of selectors)"""
+    out = {"evaluations": 0, "undefined": 0, "nonempty": 0, "issues": [], "tables": 0, "pairs": 0, "singles": 0, "triples": 0}
+    h = hashlib.sha256()
+    for names in chunk:
+        cols = columns(names)
+        n = len(names)
+        for s1 in TRIPLE_CORE:
+            for s2 in TRIPLE_CORE:
+                for s3 in TRIPLE_CORE:
+                    out["evaluations"] += 1
+                    out["triples"] += 1
+                    try:
+                        c1 = sub(cols, ref_select(cols, s1))
+                        c2 = sub(c1, ref_select(c1, s2))
+                        exp = sub(c2, ref_select(c2, s3))
+                    except (Undefined, KeyError):
+                        out["undefined"] += 1
+                        continue
+                    what = None
+                    try:
+                        t = mk_table(names)
+                        a = real_rows(t, (s1, s2, s3))
+                        idx = [int(i) % n if n else int(i) for i in t.rows.indices[s1, s2, s3]]
+                        if a["s"] != exp["s"] or a["name"] != exp["name"]:
+                            what = f"rows[{s1!r}, {s2!r}, {s3!r}] has s={a['s']!r}; rows[..].rows[..].rows[..] semantics give s={exp['s']!r}"
+                        elif [cols["s"][i] for i in idx] != exp["s"]:
+                            what = f"rows.indices[{s1!r}, {s2!r}, {s3!r}] = {idx!r} does not describe the selected rows (s={exp['s']!r})"
+                    except Exception as e:  # noqa
+                        what = f"rows[{s1!r}, {s2!r}, {s3!r}] raised {type(e).__name__}: {e}; expected s={exp['s']!r}"
+                    if what and len(out["issues"]) < 40:
+                        out["issues"].append(issue(names, (s1, s2, s3), what, _CFG))
+                    if exp["s"]:
+                        out["nonempty"] += 1
+                    h.update(repr((names, sel_key(s1), sel_key(s2), sel_key(s3), exp["s"] if what is None else "BAD")).encode())
+    out["digest_sum"] = int(h.hexdigest(), 16)
+    out["distinct"] = set()
+    return out
+
+
 _CFG = {}
 
 
@@ -296,7 +363,9 @@ def plan(tier, seed):
         jobs.append({"name": f"enum:seed{hs}", "mode": "pure", "hashseed": hs, "nproc": 5 if tier == "quick" else 4, "timeout": 3300,
                      "args": {"tier": tier}})
     return {"level": LEVEL, "jobs": jobs,
-            "assumptions": ["names are distinct under case folding and contain no regex metacharacters or separator substrings",
+            "assumptions": ["main enumeration: names are distinct under case folding and contain no regex metacharacters or separator substrings; "
+                            "a second enumeration uses names that differ only by case and a name that as a regex matches another one, with "
+                            "selectors WITHOUT a count (for 'name::count' the library tries the literal name first, by design)",
                             "explicit position / name lists keep the order given (pinned by the existing suite); pattern, mask, span and "
                             "range selectors return ascending positions",
                             "shifts and positions are only judged when they land inside the table",
@@ -311,6 +380,17 @@ def run_job(job):
     tables += [(nm, tier == "thorough") for nm in LARGE]
     chunks = E.chunked(tables, 6)
     r = E.pmap(job_chunk, chunks, job.get("nproc", 1))
+    tabs2 = [nm for n in range(1, 5 if tier == "quick" else 6) for nm in itertools.product(NAMES2, repeat=n)]
+    r2 = E.pmap(job_chunk2, E.chunked(tabs2, 40), job.get("nproc", 1))
+    tabs3 = [nm for nm in all_index_columns(3 if tier == "quick" else 4)]
+    r3 = E.pmap(job_triples, E.chunked(tabs3, 2), job.get("nproc", 1))
+    for extra in (r2, r3):
+        for k, v in extra.items():
+            if isinstance(v, (int, float)) and k != "wall_s":
+                r[k] = r.get(k, 0) + v
+        r["issues"] = r["issues"] + extra["issues"]
+    r["triples"] = r3.get("triples", 0)
+    r["case_variant_tables"] = len(tabs2)
     dsum = r.pop("digest_sum", 0)
     st = {k: v for k, v in r.items() if isinstance(v, (int, float))}
     st["distinct_results"] = len(r.get("distinct", ()))
@@ -332,6 +412,7 @@ def finish(plan_, results):
     cov = {"evaluations": int(tot),
            "distinct_nontrivial": int(st.get("nonempty", 0)),
            "per_seed": {"tables": st.get("tables"), "single_selector_cases": st.get("singles"), "selector_pairs": st.get("pairs"),
+                        "selector_triples": st.get("triples"), "tables_with_case_variant_or_regex_overlapping_names": st.get("case_variant_tables"),
                         "reference_undefined_skipped": st.get("undefined"), "distinct_result_lists": st.get("distinct_results")},
            "hash_seeds": sorted(digs), "result_digests_equal_across_seeds": len(set(digs.values())) <= 1,
            "exhaustive": True,
@@ -355,6 +436,11 @@ def replay(issue):
     out = {"evaluations": 0, "undefined": 0, "nonempty": 0, "issues": []}
     cols = columns(names)
     t = mk_table(names)
+    if isinstance(sel, tuple) and len(sel) == 3:
+        # re-run the triple job on this one table and look for the same selector triple
+        r = job_triples([names])
+        bad = [i for i in r["issues"] if i["case"]["sel"] == case["sel"]]
+        return {"still_fails": bool(bad), "what": bad[0]["what"] if bad else "ok"}
     if isinstance(sel, tuple):
         check_pair(t, cols, names, sel[0], sel[1], {}, out)
     else:
